@@ -156,6 +156,11 @@ func bucketClockScenario(c *sup.Ctx, r *rng.R) {
 				case 5:
 					cas, err = col.WriteSubDoc(ctx, key, "p", 0, []byte(`1`))
 				case 6:
+					if wr.Bool() {
+						// (appending has an UPDATE statement of its own)
+						cas, err = col.WriteCas(key, 0, last[lk], []byte(" "), sgbucket.Append)
+						break
+					}
 					cas, err = col.WriteTombstoneWithXattrs(ctx, key, 0, last[lk], map[string][]byte{"_sync": []byte(`{"a":3}`)}, nil, false, nil)
 				default:
 					// a blind write followed by a read of the CAS it got
